@@ -28,10 +28,10 @@ theorem dunder_internal (o : Obj) (attr : String) (h : attr.startsWith "__" = tr
 
 /-- the documented internal attributes of special objects -/
 theorem documented_internal :
-    isInternalAttribute ⟨["type"], []⟩ "mro" = true ∧
-    (∀ a ∈ ["gi_frame", "gi_code"], isInternalAttribute ⟨["types.GeneratorType"], []⟩ a = true) ∧
-    (∀ a ∈ ["cr_frame", "cr_code"], isInternalAttribute ⟨["types.CoroutineType"], []⟩ a = true) ∧
-    (∀ a ∈ ["ag_frame", "ag_code"], isInternalAttribute ⟨["types.AsyncGeneratorType"], []⟩ a = true) := by
+    isInternalAttribute ⟨["type"], [], []⟩ "mro" = true ∧
+    (∀ a ∈ ["gi_frame", "gi_code"], isInternalAttribute ⟨["types.GeneratorType"], [], []⟩ a = true) ∧
+    (∀ a ∈ ["cr_frame", "cr_code"], isInternalAttribute ⟨["types.CoroutineType"], [], []⟩ a = true) ∧
+    (∀ a ∈ ["ag_frame", "ag_code"], isInternalAttribute ⟨["types.AsyncGeneratorType"], [], []⟩ a = true) := by
   decide +kernel
 
 /-- everything on code, traceback and frame objects is internal -/
@@ -141,12 +141,12 @@ example : Sandboxed_getitem ⟨.strSubclass, .err .keyError, .ok, false, true⟩
     Sandboxed_getitem ⟨.exactStr, .err .typeError, .ok, true, true⟩ = .fmtWrapper ∧
     Base_getitem ⟨.strSubclass, .err .keyError, .ok, false, false⟩ = .rawAttr ∧
     Base_getattr ⟨.exactStr, .ok, .ok, true, false⟩ = .rawAttr ∧
-    wrapReturnsNone ⟨["types.BuiltinMethodType"], []⟩ "upper" true = true ∧
-    wrapReturnsNone ⟨["types.BuiltinMethodType"], []⟩ "format" false = true := by decide +kernel
+    wrapReturnsNone ⟨["types.BuiltinMethodType"], [], []⟩ "upper" true = true ∧
+    wrapReturnsNone ⟨["types.BuiltinMethodType"], [], []⟩ "format" false = true := by decide +kernel
 
 -- non-vacuity
-example : Sandboxed_is_safe_attribute ⟨["type"], []⟩ "upper" = true ∧
-    Sandboxed_is_safe_attribute ⟨[], []⟩ "_x" = false ∧
-    Sandboxed_is_safe_attribute ⟨["types.FrameType"], []⟩ "f_locals" = false := by decide +kernel
+example : Sandboxed_is_safe_attribute ⟨["type"], [], []⟩ "upper" = true ∧
+    Sandboxed_is_safe_attribute ⟨[], [], []⟩ "_x" = false ∧
+    Sandboxed_is_safe_attribute ⟨["types.FrameType"], [], []⟩ "f_locals" = false := by decide +kernel
 
 end JinjaV.C17
